@@ -29,6 +29,10 @@ func (t *tree) doPrefetchPrefixes(ctx context.Context, prefixes [][]byte, limit 
 	if len(prefixes) == 0 || limit == 0 {
 		return nil
 	}
+	if t.cache.pendingRoot == nil {
+		// The tree is empty (e.g., everything has been removed locally), nothing to prefetch into.
+		return nil
+	}
 
 	return t.cache.remoteSync(
 		ctx,
